@@ -34,7 +34,7 @@ def shards(tier, seed):
     if tier == "quick":
         n_sh, n, budget = 8, 40, 45
     else:
-        n_sh, n, budget = 16, 220, 420
+        n_sh, n, budget = 16, 1200, 420
     return [{"name": f"res{i}", "threads": 2, "timeout": budget * 4 + 300,
              "params": {"seed": seed, "shard": i, "n": n, "budget_s": budget}}
             for i in range(n_sh)]
